@@ -31,6 +31,7 @@ from vf.ref.mast import B, N, V, Decl, Model
 
 LEVEL = "exploration"
 _ELEM = re.compile(r"^(.+)\[(\d+(?:,\d+)*)\]$")
+_LOOP_ELEM = re.compile(r"^(\w+)\[i(-1)?\]$")
 
 # ---- alphabet ---------------------------------------------------------------------------------------------
 
@@ -155,6 +156,10 @@ def sym_node(s):
     m = _ELEM.match(s)
     if m:
         return ("idx", m.group(1), (N(int(m.group(2))),))
+    m = _LOOP_ELEM.match(s)
+    if m:  # loop-indexed element, e.g. pv[i] or pv[i-1] (only inside the for-loop)
+        sub = V("i") if not m.group(2) else B("-", V("i"), N(1))
+        return ("idx", m.group(1), (sub,))
     return V(s)
 
 
@@ -244,6 +249,24 @@ def eliminates_tau(optname):
     return bool(o.get("detect_aliases") or o.get("eliminable_variable_expression"))
 
 
+# Durations that depend on the loop index (placement 'loop' only): one delay per iteration, each with its own duration.
+LOOP_DURS = [
+    ("pv[i]",),
+    ("ufv[i]",),
+    ("uv[i]",),
+    ("xv[i]",),
+    ("pv[i-1]",),
+    ("pv[i]", "+", "p"),
+    ("uf", "*", "pv[i]"),
+    ("pv[i]", "+", "ufv[i]"),
+    ("pv[i]", "*", "ufv[i-1]"),
+    ("pv[i]", "*", "uv[i]"),
+    ("s", "+", "pv[i]"),
+    ("xv[i]", "+", "ufv[i]"),
+    ("pv[i]", "+", "time"),
+]
+LOOP_DUR_PAIRS = [(("pv[i]",), ("p",)), (("p",), ("pv[i]",)), (("pv[i]",), ("ufv[i-1]",)), (("pv[i]",), ("uv[i]",)), (("u",), ("pv[i]",)), (("pv[i]",), ("pv[i]",))]
+
 VIA_DURS = [(TAU,), (TAU, "+", "p"), ("uf", "*", TAU)]
 VIA_FORMS = ["eq", "after", "plus"]  # tau = D before the delay that uses it / after it / tau = D + p
 
@@ -281,6 +304,20 @@ def specs(tier):
                     for other in ("p", "u"):
                         out.append(({"delays": [[p1, k1, list(d)], [p2, k2, [other]]], "layout": lay}, _opts_for(QUICK_OPTS, "loop" in (p1, p2))))
                         out.append(({"delays": [[p1, k1, [other]], [p2, k2, list(d)]], "layout": lay}, _opts_for(QUICK_OPTS, "loop" in (p1, p2))))
+    # loop-indexed durations: every LOOP_DURS entry x every in-loop expression kind (incl. the loop-invariant x), and
+    # pairs of delays in one loop / two loops / outside + loop where one or both durations are loop-indexed
+    lkinds = EKINDS_LOOP + (["elem-shift"] if tier == "thorough" else [])
+    for ek in lkinds:
+        for d in LOOP_DURS:
+            out.append(({"delays": [["loop", ek, list(d)]], "layout": None}, _opts_for(opts1, True)))
+    for d1, d2 in LOOP_DUR_PAIRS:
+        for k1, k2 in kpairs:
+            for lay in ("same", "separate"):
+                out.append(({"delays": [["loop", k1, list(d1)], ["loop", k2, list(d2)]], "layout": lay}, _opts_for(opts2, True)))
+    for d in LOOP_DURS[:4]:
+        for other in ("p", "u"):
+            out.append(({"delays": [["out", "x", [other]], ["loop", "elem", list(d)]], "layout": None}, _opts_for(opts2, True)))
+            out.append(({"delays": [["loop", "elem", list(d)], ["out", "x", [other]]], "layout": None}, _opts_for(opts2, True)))
     # via-variable models: tau = <delayed signal>; one delay whose duration mentions tau
     # (quick: three placements; all forms and durations for four of the delayed signals, 'tau = D; delay(.., tau)' for the rest)
     vplaces = [("out", "x"), ("out", "vec"), ("loop", "elem")] if tier == "quick" else singles
@@ -808,7 +845,7 @@ def run(ctx):
         }
     )
     ctx.assumptions.append(
-        "durations are loop-invariant scalars (pv[i] / the loop index as a duration is outside the alphabet); any exception counts as a "
+        "the loop index itself as a duration (delay(x, i)) is outside the alphabet, loop-indexed array elements (pv[i], pv[i-1]) are in it; any exception counts as a "
         "rejection of a should-reject model, ValueError is the documented one (counted separately); values are compared on %d grid points "
         "consistent with the model's alias equations; the statement gives no verdict for a duration that is the delayed value of a "
         "constant / parameter / fixed-input expression (source reading: allowed; model reading: the delay state is a non-fixed input), such "
